@@ -45,18 +45,20 @@ VF_HARNESS(ctor_iterator_pair) {   // array(first, last) over rows of another ar
 
 #ifdef NOWRITE   // ELT=int: the arena is pre-filled with a pattern; sizing constructor and fill-less reextent must not write new elements
 VF_HARNESS(sizing_ctor_does_not_write) {
+  int* const ints = reinterpret_cast<int*>(g_arena);
 #pragma unroll
-  for(int c = 0; c < ARENA_CELLS; ++c) g_arena_cells[c] = 0x0101010101010101L * (c + 1);
+  for(int c = 0; c < 2 * ARENA_CELLS; ++c) ints[c] = 1000 + c;
   L n[D]; draw_extents<D>(n, 1, NB); SLOT(0);
   { Arr a(exts<D>(n));
-    L c = vf_range(0, ARENA_CELLS - 1);
-    vf_assert(g_arena_cells[c] == 0x0101010101010101L * (c + 1), "sizing constructor does not write to elements of a trivially default-constructible type"); }
+    L c = vf_range(0, 2 * ARENA_CELLS - 1);
+    vf_assert(ints[c] == 1000 + c, "sizing constructor does not write to elements of a trivially default-constructible type"); }
   fin(); vf_reach("sizing_ctor_does_not_write");
 }
 VF_HARNESS(reextent_does_not_write_new_elements) {
   Slot a; make_state<1>(a, 10, 0);
+  int* const ints = reinterpret_cast<int*>(g_arena);
 #pragma unroll
-  for(int c = SLOT_CELLS; c < ARENA_CELLS; ++c) g_arena_cells[c] = 0x0101010101010101L * (c + 1);
+  for(int c = 2 * SLOT_CELLS; c < 2 * ARENA_CELLS; ++c) ints[c] = 1000 + c;
   L m[D]; draw_extents<D>(m, 1, NB); SLOT(2);
   (*a).reextent(exts<D>(m));
   // a new-element position (outside the old extents) still holds the pattern of its cell
@@ -69,9 +71,7 @@ VF_HARNESS(reextent_does_not_write_new_elements) {
   for(int k = 0; k < D; ++k) same = same && a.n[k] == m[k];
   if(!inside && !same) {
     int const* p = &at<D>(*a, i);
-    long cell = (reinterpret_cast<char const*>(p) - g_arena) / 8; long half = ((reinterpret_cast<char const*>(p) - g_arena) % 8) / 4;
-    long pat = 0x0101010101010101L * (cell + 1);
-    vf_assert(*p == static_cast<int>(half == 0 ? (pat & 0xffffffffL) : ((pat >> 32) & 0xffffffffL)), "reextent without a fill value does not write to new elements of a trivially default-constructible type");
+    vf_assert(*p == 1000 + (p - ints), "reextent without a fill value does not write to new elements of a trivially default-constructible type");
   }
   a.destroy(); fin(); vf_reach("reextent_does_not_write_new_elements");
 }
